@@ -8,7 +8,7 @@ from ..framework import result, ihash, emu_verdict
 
 ID = "C02"
 LEVEL = "exploration"
-RUNS = {"quick": 500, "thorough": 15000}
+RUNS = {"quick": 2500, "thorough": 15000}
 RULE = ("seeded programs that follow the documented protocol exactly (version check, proc init, thread init, require, CPUs, OHx, events stamped "
         "with ovni_clock_now() read immediately before each emit, OHe, flush, free, fini) over the real libovni; events the emulator accepts "
         "anywhere (OB. with any payload or as jumbo, marks of defined types, OU[ OU]); jumbo sizes up to the API maximum at every fill level, "
